@@ -4,7 +4,6 @@ import (
 	"bytes"
 	"io"
 	"net/http"
-	"strings"
 )
 
 // proxy will pass the request through to Honeycomb unchanged and relay the
@@ -29,7 +28,7 @@ func (r *Router) proxy(w http.ResponseWriter, req *http.Request) {
 	upstreamReq = upstreamReq.WithContext(req.Context())
 	// copy over headers from upstream to the upstream service
 	for header, vals := range req.Header {
-		upstreamReq.Header.Set(header, strings.Join(vals, ","))
+		upstreamReq.Header[header] = append([]string(nil), vals...)
 	}
 	if forwarded != "" {
 		upstreamReq.Header.Set("X-Forwarded-For", forwarded+", "+req.RemoteAddr)
@@ -46,7 +45,7 @@ func (r *Router) proxy(w http.ResponseWriter, req *http.Request) {
 	defer resp.Body.Close()
 	// copy over headers
 	for header, vals := range resp.Header {
-		w.Header().Set(header, strings.Join(vals, ","))
+		w.Header()[header] = append([]string(nil), vals...)
 	}
 	// copy over status code
 	w.WriteHeader(resp.StatusCode)
